@@ -12,8 +12,9 @@
    Reflector.ReflectTo into a destination that holds an earlier value / went through a sequence of conversions.
    `ffmt` is the oracle for fmt's rendering of float64 map keys (it only orders the entries of a wrapped Hash):
    every theorem holds for EVERY such function. *)
-From Coq Require Import ZArith NArith Bool List.
-From PcoreV Require Import Model.Base Model.Reflect Model.ReflectNamed Proofs.ReflectProofs Proofs.ReflectNamedProofs.
+From Coq Require Import ZArith NArith Bool List Permutation.
+From PcoreV Require Import Model.Base Model.Reflect Model.ReflectNamed Model.ReflectTypeSet Proofs.ReflectProofs Proofs.ReflectNamedProofs
+  Proofs.ReflectTypeSetProofs.
 Import ListNotations.
 Open Scope Z_scope.
 
@@ -381,4 +382,83 @@ Example C18_example_embedded :
   length (own_attr_names false job) = 5%nat /\ length (own_attr_names true job) = 5%nat /\
   own_attr_names true child = [[110; 97; 109; 101]%N] /\
   own_attr_names false child = [[108; 105; 109; 105; 116; 115]%N; [110; 97; 109; 101]%N].
+Proof. vm_compute. repeat split; reflexivity. Qed.
+
+(* ------------------------------------------------------------------------------------------------ *)
+(** * The second entry point: Reflector.TypeSetFromReflect (Model/ReflectTypeSet.v) *)
+
+(* the loop over the argument list is the map of a function of the single struct: nothing is carried from one struct of
+   the list to the next *)
+Theorem C18_typeset_is_per_struct :
+  forall ts_name aliases rts,
+    typeset_entries ts_name aliases rts = map (ts_entry (ts_name ++ [colon; colon]) aliases) rts.
+Proof. exact typeset_entries_map. Qed.
+Print Assumptions C18_typeset_is_per_struct.
+
+(* ORDER INDEPENDENCE: for every two orders of the same structs (distinct type names), every name resolves to the same
+   entry - same parent, same own attributes - in both type sets; the entries are a permutation of each other *)
+Theorem C18_typeset_order_independent :
+  forall ts_name aliases l l',
+    Permutation l l' ->
+    NoDup (map (fun s => type_name (ts_name ++ [colon; colon]) aliases (sd_name s)) l) ->
+    Permutation (typeset_entries ts_name aliases l) (typeset_entries ts_name aliases l') /\
+    forall n, ts_lookup n (typeset_entries ts_name aliases l) = ts_lookup n (typeset_entries ts_name aliases l').
+Proof.
+  intros ts_name aliases l l' HP Hnd. split.
+  - now apply typeset_entries_perm.
+  - now apply typeset_order_independent.
+Qed.
+Print Assumptions C18_typeset_order_independent.
+
+(* every struct of the list is found under its name; its parent and its own attributes are those of that struct alone *)
+Theorem C18_typeset_member :
+  forall ts_name aliases l s,
+    NoDup (map (fun s => type_name (ts_name ++ [colon; colon]) aliases (sd_name s)) l) ->
+    In s l ->
+    ts_lookup (type_name (ts_name ++ [colon; colon]) aliases (sd_name s)) (typeset_entries ts_name aliases l) =
+    Some (ts_entry (ts_name ++ [colon; colon]) aliases s).
+Proof. exact typeset_member. Qed.
+Print Assumptions C18_typeset_member.
+
+(* a struct without an embedded first struct field has no parent and declares every one of its fields, wherever it
+   stands in the list; a struct with one has the type named after it as parent and declares the remaining fields *)
+Theorem C18_typeset_plain_struct :
+  forall prefix aliases s,
+    has_parent s = false ->
+    te_parent (ts_entry prefix aliases s) = None /\
+    te_own (ts_entry prefix aliases s) = map (fun f => first_to_lower (sf_name f)) (sd_fields s).
+Proof. exact plain_struct_entry. Qed.
+Print Assumptions C18_typeset_plain_struct.
+
+Theorem C18_typeset_child_struct :
+  forall prefix aliases n f fs',
+    sf_emb f = true -> sf_struct f = true ->
+    te_parent (ts_entry prefix aliases (SD n (f :: fs'))) = Some (type_name prefix aliases (sf_tname f)) /\
+    te_own (ts_entry prefix aliases (SD n (f :: fs'))) = map (fun f => first_to_lower (sf_name f)) fs'.
+Proof. exact child_struct_entry. Qed.
+Print Assumptions C18_typeset_child_struct.
+
+(* the key of the entry is the alias (or Go name) of the struct when that holds no "::" and does not start with ':' *)
+Theorem C18_typeset_entry_key :
+  forall ts_name aliases s,
+    after_last_sep (alias_of aliases (sd_name s)) = None ->
+    hd_error (alias_of aliases (sd_name s)) <> Some colon ->
+    te_key (ts_entry (ts_name ++ [colon; colon]) aliases s) = alias_of aliases (sd_name s).
+Proof. exact entry_key_plain. Qed.
+Print Assumptions C18_typeset_entry_key.
+
+(* type set "T" of  B{X}, N{B (embedded); Y}, P{Z}  with the alias N => M: in the order B, N, P and in the order P, N, B
+   the struct P has no parent and the attribute z, N has the parent T::B and the attribute y *)
+Example C18_example_typeset :
+  let b := SD [66]%N [SF [88]%N false false [105]%N] in
+  let n := SD [78]%N [SF [66]%N true true [66]%N; SF [89]%N false false [105]%N] in
+  let p := SD [80]%N [SF [90]%N false false [105]%N] in
+  let al := [([78]%N, [77]%N)] in
+  let e1 := typeset_entries [84]%N al [b; n; p] in
+  let e2 := typeset_entries [84]%N al [p; n; b] in
+  ts_lookup [84; 58; 58; 80]%N e1 = Some (TE [80]%N [84; 58; 58; 80]%N None [[122]%N]) /\
+  ts_lookup [84; 58; 58; 80]%N e2 = ts_lookup [84; 58; 58; 80]%N e1 /\
+  ts_lookup [84; 58; 58; 77]%N e1 = Some (TE [77]%N [84; 58; 58; 77]%N (Some [84; 58; 58; 66]%N) [[121]%N]) /\
+  ts_lookup [84; 58; 58; 77]%N e2 = ts_lookup [84; 58; 58; 77]%N e1 /\
+  map te_key e1 = [[66]%N; [77]%N; [80]%N] /\ map te_key e2 = [[80]%N; [77]%N; [66]%N].
 Proof. vm_compute. repeat split; reflexivity. Qed.
